@@ -89,6 +89,15 @@ func pData[T any](p *Path, v Value, what string) T {
 	return d
 }
 
+// yieldAtDBOp: with verif.YieldAtDB(true), every operation on a database
+// handle is a scheduling point (operations on batches, snapshots and
+// iterators are not: they do not touch shared state until Commit).
+func (p *Path) yieldAtDBOp() {
+	if p.yieldAtDB {
+		p.yield()
+	}
+}
+
 func (p *Path) pebblePanicClosed() {
 	p.goPanic(p.sentinelError(pebblePkg + ".ErrClosed"))
 }
@@ -296,6 +305,10 @@ func init() {
 	}
 	regNoop("(*" + pebblePkg + ".LevelOptions).EnsureDefaults")
 
+	reg(verifPkg+".YieldAtDB", func(p *Path, _ *frame, a []Value) Value {
+		p.yieldAtDB = p.branch(p.boolArg(a[0]))
+		return nil
+	})
 	reg(verifPkg+".SameFunc", func(p *Path, _ *frame, a []Value) Value {
 		x, y := a[0].(Iface).V, a[1].(Iface).V
 		return p.ctx.Bool(x == y)
@@ -343,6 +356,7 @@ func init() {
 	})
 	reg(P+"DB).NewBatch", func(p *Path, _ *frame, a []Value) Value {
 		db := pData[*pDB](p, a[0], "DB.NewBatch")
+		p.yieldAtDBOp()
 		if db.closed {
 			p.pebblePanicClosed()
 		}
@@ -350,6 +364,7 @@ func init() {
 	})
 	reg(P+"DB).NewIndexedBatch", func(p *Path, _ *frame, a []Value) Value {
 		db := pData[*pDB](p, a[0], "DB.NewIndexedBatch")
+		p.yieldAtDBOp()
 		if db.closed {
 			p.pebblePanicClosed()
 		}
@@ -357,6 +372,7 @@ func init() {
 	})
 	reg(P+"DB).NewSnapshot", func(p *Path, _ *frame, a []Value) Value {
 		db := pData[*pDB](p, a[0], "DB.NewSnapshot")
+		p.yieldAtDBOp()
 		if db.closed {
 			p.pebblePanicClosed()
 		}
@@ -364,6 +380,7 @@ func init() {
 	})
 	reg(P+"DB).NewIter", func(p *Path, _ *frame, a []Value) Value {
 		db := pData[*pDB](p, a[0], "DB.NewIter")
+		p.yieldAtDBOp()
 		if db.closed {
 			p.pebblePanicClosed()
 		}
@@ -371,6 +388,7 @@ func init() {
 	})
 	reg(P+"DB).Get", func(p *Path, _ *frame, a []Value) Value {
 		db := pData[*pDB](p, a[0], "DB.Get")
+		p.yieldAtDBOp()
 		if db.closed {
 			p.pebblePanicClosed()
 		}
@@ -378,6 +396,7 @@ func init() {
 	})
 	reg(P+"DB).Set", func(p *Path, _ *frame, a []Value) Value {
 		db := pData[*pDB](p, a[0], "DB.Set")
+		p.yieldAtDBOp()
 		if db.closed {
 			p.pebblePanicClosed()
 		}
@@ -388,6 +407,7 @@ func init() {
 	})
 	reg(P+"DB).Delete", func(p *Path, _ *frame, a []Value) Value {
 		db := pData[*pDB](p, a[0], "DB.Delete")
+		p.yieldAtDBOp()
 		if db.closed {
 			p.pebblePanicClosed()
 		}
@@ -398,6 +418,7 @@ func init() {
 	})
 	reg(P+"DB).Flush", func(p *Path, _ *frame, a []Value) Value {
 		db := pData[*pDB](p, a[0], "DB.Flush")
+		p.yieldAtDBOp()
 		if db.closed {
 			p.pebblePanicClosed()
 		}
@@ -446,6 +467,7 @@ func init() {
 	})
 	reg(P+"Batch).Commit", func(p *Path, _ *frame, a []Value) Value {
 		b := pData[*pBatch](p, a[0], "Batch.Commit")
+		p.yieldAtDBOp()
 		if b.db.closed {
 			p.pebblePanicClosed()
 		}
